@@ -9,7 +9,7 @@ open GoMC GoMC.Model Driver
 `pal.hist <kind> <gb> <len> <ctor> <ops> => <obs>`
   kind: `blocks` | `biomes`;  gb: the real `block.BitsPerBlock` / `biome.BitsPerBiome` (printed by the harness)
   ctor: `new:<default>` | `wd:<data>:<palette>`   (data: `nil` | `-` | hex longs; palette: `-` | ints joined by `.`)
-  ops (comma separated): `set:i:v` `get:i` `all` `pal` `wt` `rf:<hex bytes>`
+  ops (comma separated): `set:i:v` `get:i` `all` `pal` `wt` `rf:<hex bytes>` `rf:<reader kind>:<hex bytes>`
   obs (comma separated): first the constructor (`ok` | `panic`; after `panic` nothing follows), then one per op:
     set: `ok` | `panic`;  get: the integer | `panic`;
     all: every position (`Get(0..len-1)`) joined by `.` when len ≤ 64, else `#` + 16 hex digits of the digest
@@ -21,6 +21,16 @@ open GoMC GoMC.Model Driver
 inductive Op where
   | set (i v : Int) | get (i : Int) | all | pal | wt | rf (bs : Bytes)
 
+/-- the kinds of `io.Reader` the harness delivers the bytes through (`rf:<kind>:<hex>`; `rf:<hex>` is `br`).
+The model reads the byte CONTENT (`Rd` programs built from `io.ReadFull`/`ReadByte` contracts are
+fragmentation invariant: `C12_readFrom_fragInv`), so the observation must not depend on the kind:
+`br` bytes.Reader, `bb` bytes.Buffer, `bu` bufio.Reader, `ob` one byte per Read (no ReadByte), `rc` random
+chunks (no ReadByte), `de` last bytes delivered together with io.EOF, `do` the same one byte at a time,
+`zn` returns (0, nil) every third call, `lr…` an *io.LimitedReader over the kind that follows -/
+def readerKinds : List String :=
+  let base := ["br", "bb", "bu", "ob", "rc", "de", "do", "zn"]
+  base ++ base.map ("lr" ++ ·)
+
 def parseOp (s : String) : Option Op :=
   match s.splitOn ":" with
   | ["set", i, v] => do let i ← i.toInt?; let v ← v.toInt?; pure (Op.set i v)
@@ -29,6 +39,7 @@ def parseOp (s : String) : Option Op :=
   | ["pal"] => some Op.pal
   | ["wt"] => some Op.wt
   | ["rf", h] => (parseHex h).map Op.rf
+  | ["rf", kind, h] => if readerKinds.contains kind then (parseHex h).map Op.rf else none
   | _ => none
 
 def parseOps (s : String) : Option (List Op) :=
